@@ -5,6 +5,9 @@
       an update signed by an untrusted peer merged),
    - code 10: a call an untrusted remote caller was let in with did something on the peer that is not in the hand-written
      effect table of that (open) endpoint (Model/C07_Spec.v open_effects),
+   - code 11: in a sequence of calls and Trust / Distrust operations on one running peer, a remote caller that is not trusted at
+     the time of a call was let in on an endpoint that is not open, or one trusted at the time of the call was refused on a
+     trusted_spec endpoint (a stale trust decision, either direction),
    - code 1 for the trust observations (IsTrustedPeer histories, validated broadcasts) against trust_crdt / validator.
    Model/C07_Check.v adds the comparison with the generated policy table. The runner falls back to this module
    (spec key check_fallback) when Model/C07_Check.v does not compile. *)
@@ -20,9 +23,37 @@ Definition trust_of (m : tmode) (p : N) : bool :=
   | MCrdt star l h => trust_crdt (mk_crdt_cfg star 0%N l) h p
   end.
 
+(* one step of a call sequence on ONE running peer: the caller calls the endpoint (observed: true = anything but an
+   authorization error), or a Trust / Distrust call is made on the called peer's consensus component *)
+Inductive sstep := SCall (passed : bool) | SOp (o : top).
+(* consensus/raft: Trust and Distrust do nothing; consensus/crdt: they update the trust set at once *)
+Definition mode_op (m : tmode) (o : top) : tmode :=
+  match m with MRaft => MRaft | MCrdt star l h => MCrdt star l (h ++ [o])%list end.
+(* f holds of every call of the sequence, given the trust state AT THE TIME OF THAT CALL *)
+Fixpoint seq_forall (f : tmode -> bool -> bool) (m : tmode) (steps : list sstep) : bool :=
+  match steps with
+  | [] => true
+  | SCall p :: r => f m p && seq_forall f m r
+  | SOp o :: r => seq_forall f (mode_op m o) r
+  end.
+(* the sequence with every observation replaced by f of the trust state at that moment *)
+Fixpoint seq_annot (f : tmode -> bool) (m : tmode) (steps : list sstep) : list sstep :=
+  match steps with
+  | [] => []
+  | SCall _ :: r => SCall (f m) :: seq_annot f m r
+  | SOp o :: r => SOp o :: seq_annot f (mode_op m o) r
+  end.
+(* the trust state after a prefix of the sequence *)
+Definition mode_after (m : tmode) (pre : list sstep) : tmode :=
+  fold_left (fun m s => match s with SOp o => mode_op m o | SCall _ => m end) pre m.
+Definition ops_of (pre : list sstep) : list top :=
+  flat_map (fun s => match s with SOp o => [o] | SCall _ => [] end) pre.
+
 Inductive c07case :=
 (* caller (0 = the peer itself through its own client), endpoint, observed: true = anything but an authorization error *)
 | CAuth (m : tmode) (caller : N) (ep : string) (passed : bool)
+(* one environment, one caller, one endpoint: calls interleaved with later Trust / Distrust calls (m = the state before the first step) *)
+| CAuthSeq (m : tmode) (caller : N) (ep : string) (steps : list sstep)
 (* what a call by a remote caller that was let in DID on the called peer: the component calls it caused (the harness's
    recording fakes), named as in Model/C07_Spec.v *)
 | CEffects (m : tmode) (caller : N) (ep : string) (effs : list string)
@@ -48,6 +79,15 @@ Definition fail1 (id : N) (b : bool) : list (N * N * N) := if b then [] else [(i
 Definition fail2 (id : N) (b : bool) : list (N * N * N) := if b then [] else [(id, 2%N, 0%N)].
 Definition fail10 (id : N) (b : bool) : list (N * N * N) := if b then [] else [(id, 10%N, 0%N)].
 
+Definition fail11 (id : N) (b : bool) : list (N * N * N) := if b then [] else [(id, 11%N, 0%N)].
+
+(* one call of a sequence, judged with the trust state at the time of the call (remote callers only): let in -> the endpoint is
+   open, or the caller is trusted NOW and the endpoint is not local-only; refused -> not (trusted NOW and a trusted_spec endpoint) *)
+Definition seq_call_okb (caller : N) (ep : string) (m : tmode) (passed : bool) : bool :=
+  N.eqb caller 0 ||
+  (if passed then mem_str ep open_spec || (trust_of m caller && negb (mem_str ep local_only_spec))
+   else negb (trust_of m caller && mem_str ep trusted_spec)).
+
 (* an untrusted remote caller's admitted call did nothing outside the allowed effects of its endpoint *)
 Definition effects_okb (m : tmode) (caller : N) (ep : string) (effs : list string) : bool :=
   N.eqb caller 0 || trust_of m caller || forallb (fun x => mem_str x (allowed_effects ep)) effs.
@@ -60,6 +100,7 @@ Definition check_case_spec (c : N * c07case) : list (N * N * N) :=
       (* a remote caller that is let in is calling an open endpoint, or is trusted and calling an endpoint that is not local-only *)
       fail2 id (negb passed || local || mem_str ep open_spec
                 || (trust_of m caller && negb (mem_str ep local_only_spec)))
+  | CAuthSeq m caller ep steps => fail11 id (seq_forall (seq_call_okb caller ep) m steps)
   | CEffects m caller ep effs => fail10 id (effects_okb m caller ep effs)
   | CTrust star l h obs =>
       fail1 id (list_eqb Bool.eqb (map (trust_crdt (mk_crdt_cfg star 0%N l) h) (seqN 0 (length obs))) obs)
